@@ -23,3 +23,6 @@ __CPROVER_ensures(exact || !(1e-100 <= a && a <= 1e100 && -1e10 <= f && f <= 0.9
 __CPROVER_ensures(!verif_thrown_other)
 /*@ clause post.stores src=constructor props=C13 */
 __CPROVER_ensures(verif_thrown || exact || (self->_a == a && self->_f == f && !self->_exact))
+/*@ clause post.invariant src=constructor props=C12,C01 */
+/* the class invariant that GenDirect and the line constructors take as their precondition (so it is established, not merely assumed) */
+__CPROVER_ensures(verif_thrown || exact || (self->_f1 > 0.0 && !isinf(self->_f1) && self->tiny_ > 0.0 && !self->_exact))
